@@ -4,6 +4,8 @@ whose string arguments are templates (strdom) and which carry their guard stack 
 unrolled (body interpreted once per collection part); helper methods are inlined with parameter binding."""
 import ast
 
+from .inline import flatten
+
 from .loader import AnalysisError, unparse, call_name, attr_chain
 from .strdom import (Val, Role, Coll, Cond, Guard, Hole, Str, Num, Tup, ListVal, EqObj, Opaque, Const, Phi,
                      SELF, MODEL, EXTSECTOR, NONE, TRUE, FALSE, ext, lit, hole)
@@ -418,7 +420,7 @@ class Interp(object):
         if a == 'ExternalSector':
             return EXTSECTOR
         if a in ('EquationBlock',):
-            return Opaque('block:' + role.show())
+            return Opaque('block:' + role.show(), role=role)
         if a in ('SectorList',):
             inner = role.args[0] if role.kind == 'parent' else role
             return Coll('country_sectors', inner)
@@ -464,7 +466,7 @@ class Interp(object):
         if isinstance(base, Tup) and isinstance(idx, Num) and idx.const is not None:
             return base.items[int(idx.const)]
         if isinstance(base, Opaque) and base.text.startswith('block:'):
-            return Opaque('eq:%s:%s' % (base.text[6:], self.to_str(idx).show()))
+            return Opaque('eq:%s:%s' % (base.text[6:], self.to_str(idx).show()), role=base.role, name=self.to_str(idx))
         return Opaque(unparse(e))
 
     def ev_Compare(self, e, fr):
@@ -800,15 +802,10 @@ class Interp(object):
         if role is not None:
             return self.method_call(role, nm, e, fr)
         if isinstance(recv, Opaque) and recv.text.startswith('eq:') and nm == 'AddTerm':
-            _, rshow, key = recv.text.split(':', 2)
-            blk = self.ev(f.value.value.value, fr)
-            keyv = self.to_str(self.ev(f.value.slice, fr))
-            self.emit('blockterm', e, fr, role=self.to_role(blk), name=keyv, term=self.to_str(A(0)))
+            self.emit('blockterm', e, fr, role=self.to_role(recv.role), name=recv.name, term=self.to_str(A(0)))
             return NONE
         if isinstance(recv, Opaque) and recv.text.startswith('eq:') and nm in ('RHS', 'GetRightHandSide'):
-            blk = self.to_role(self.ev(f.value.value.value, fr))
-            keyv = self.to_str(self.ev(f.value.slice, fr))
-            return Str([Hole('rhsof', blk, keyv)])
+            return Str([Hole('rhsof', self.to_role(recv.role), recv.name)])
         if isinstance(recv, Coll):
             if nm == 'GetSectors':
                 return recv
@@ -991,7 +988,7 @@ class Interp(object):
                     fr.via + (target.qualname,))
         new.via_funcs = getattr(fr, 'via_funcs', ()) + (target,)
         base = len(self.guards)
-        status = self.block(target.node.body, new)
+        status = self.block(flatten(self.prog, target).node.body, new)
         if not new.returns:
             return NONE
         rets = [(g[base:], v) for g, v in new.returns]
@@ -1128,15 +1125,13 @@ class Interp(object):
                 self.emit('attrset', node, fr, role=self.to_role(base), name=lit(t.attr), args=(v,))
                 return
             if isinstance(base, Opaque) and base.text.startswith('eq:') and t.attr == 'TermList':
-                blk = self.to_role(self.ev(t.value.value.value, fr))
-                keyv = self.to_str(self.ev(t.value.slice, fr))
-                self.emit('def', node, fr, role=blk, name=keyv, rhs=self.to_str(v), mode='set')
+                self.emit('def', node, fr, role=self.to_role(base.role), name=base.name, rhs=self.to_str(v), mode='set')
                 return
             return
         if isinstance(t, ast.Subscript):
             base = self.ev(t.value, fr)
             if isinstance(base, Opaque) and base.text.startswith('block:'):
-                self.emit('def', node, fr, role=self.to_role(self.ev(t.value.value, fr)), name=self.to_str(self.ev(t.slice, fr)),
+                self.emit('def', node, fr, role=self.to_role(base.role), name=self.to_str(self.ev(t.slice, fr)),
                           rhs=self.to_str(v), mode='create')
             return
 
@@ -1353,6 +1348,9 @@ def run_method(prog, cls, method_name, interp=None, phase='gen', bind=None, self
     m = prog.resolve_method(cls, method_name)
     if m is None:
         raise AnalysisError('%s.%s not found' % (cls.name, method_name))
+    # private helpers of the method are inlined at the syntax level first (exact rewritings, see inline.py), so that a
+    # helper used as a branch condition or returning from several places is interpreted like the code it stands for
+    m = flatten(prog, m)
     env = {}
     for p in m.params()[1:]:
         env[p] = (bind or {}).get(p, P('param', p))
